@@ -175,8 +175,8 @@ struct SIMDVector<float,simd_abi::avx512> {
     FASTOR_INLINE SIMDVector<float,simd_abi::avx512> reverse() {
         return _mm512_reverse_ps(value);
     }
-    // FASTOR_INLINE float minimum() {return _mm512_hmin_ps(value);}
-    // FASTOR_INLINE float maximum() {return _mm512_hmax_ps(value);}
+    FASTOR_INLINE float minimum() {return _mm512_reduce_min_ps(value);}
+    FASTOR_INLINE float maximum() {return _mm512_reduce_max_ps(value);}
 
     FASTOR_INLINE float dot(const SIMDVector<float,simd_abi::avx512> &other) {
         __m512 res =  _mm512_mul_ps(value,other.value);
